@@ -168,7 +168,7 @@ PROPS = {
     },
     'C12': {
         'native': ['c12_'],
-        'units': ['reader'],
+        'units': ['reader', 'chain'],
         'kani_quick': ['types_coin_parameter_table'],
         'kani_thorough': [],
         'trusted': [
